@@ -64,7 +64,8 @@ def hyp_case():
     focused = st.lists(st.one_of(
         st.tuples(st.sampled_from(["get_FCR", "get_NCPR", "get_mean_net_charge", "get_fraction_expanding"]), st.sampled_from([[0], [0.0], [14], [7], [7.0], [3]])).map(list),
         st.tuples(st.sampled_from(["get_linear_FCR", "get_linear_NCPR", "get_linear_sigma"]), st.sampled_from([[1], [5], [6]])).map(list),
-        st.sampled_from([["phospho_cycle", [2, True]], ["phospho_cycle", [99, False]], ["phospho_cycle", [99, True]], ["get_kappa", None], ["get_isoelectric_point", None], ["get_FCR", None], ["get_NCPR", None]])),
+        st.sampled_from([["plot:show_phaseDiagramPlot", {"xLim": 0.3, "yLim": 0.3}], ["plot:show_phaseDiagramPlot", {"xLim": 0.2}], ["plot:show_uverskyPlot", {"yLim": 0.3}],
+                         ["phospho_cycle", [2, True]], ["phospho_cycle", [99, False]], ["phospho_cycle", [99, True]], ["get_kappa", None], ["get_isoelectric_point", None], ["get_FCR", None], ["get_NCPR", None]])),
         min_size=1, max_size=3)
     return st.one_of(st.builds(lambda s, w: {"seq": s, "warm": w}, gens.sequences(max_len=40), gens.warmups()),
                      st.builds(lambda s, w: {"seq": s, "warm": w}, gens.sequences(max_len=40), focused),
